@@ -105,6 +105,14 @@ def description(d):
     if d['src'] == 'chain':
         return RepetitionCodeDescription.from_chain(length=d['length'], qubit_refocusing=d.get('refocus', True))
     layout = getattr(rcc, d['name'])()
+    if d['src'] == 'composite':     # a description derived from a base description: excluded gate edges, all layout qubits mapped
+        from qce_circuit.library.repetition_code.circuit_components import CompositeRepetitionCodeDescription
+        from qce_circuit.connectivity.intrf_channel_identifier import EdgeIDObj
+        base = RepetitionCodeDescription.from_connectivity(involved_qubit_ids=[QubitIDObj(x) for x in d['involved']], connectivity=layout,
+                                                           qubit_refocusing=d.get('refocus', True))
+        return CompositeRepetitionCodeDescription(
+            _base_description=base, _qubit_index_map={q: i for i, q in enumerate(layout.qubit_ids)}, _connectivity=layout,
+            _exclude_gate_edge_ids=[EdgeIDObj(QubitIDObj(a), QubitIDObj(b)) for a, b in d.get('excl_e', [])])
     kw = {}
     if d.get('index_map') is not None:          # an explicit qubit -> circuit-channel map (hardware channel numbers, in any order)
         kw['qubit_index_map'] = {QubitIDObj(x): int(i) for x, i in zip(d['involved'], d['index_map'])}
